@@ -240,9 +240,9 @@ type worker struct {
 }
 
 func (w *worker) server(streaming bool) *srvh.Server {
-	if s := w.servers[streaming]; s != nil {
-		return s
-	}
+	// A fresh engine (and with it a fresh pool of request contexts) for every case: what the probe observes then depends
+	// on the case's own history only, and a replay reproduces it. (With one engine per worker a context dirtied by an
+	// earlier case could fail a later one - a verdict no replay reproduced.)
 	s := srvh.New(srvh.Opts{Streaming: streaming})
 	s.E.Use(recovery.Recovery())
 	s.E.POST("/dirty/:id", func(c context.Context, ctx *app.RequestContext) {
@@ -274,7 +274,6 @@ func (w *worker) server(streaming bool) *srvh.Server {
 		w.probed = true
 	})
 	s.Start()
-	w.servers[streaming] = s
 	return s
 }
 
